@@ -33,3 +33,23 @@ Print Assumptions C19_slide_counter_refuted.
 Print Assumptions C19_subms_refuted.
 Print Assumptions C19_distinct.
 Print Assumptions C19_limit.
+
+(* watermark tracker part (Watermark/Ckpt.v) *)
+From VP Require Import Watermark.Model Watermark.Run Watermark.Ckpt Watermark.CkptProofs Watermark.PropsCkpt.
+Open Scope list_scope.
+Check (C19_watermark_tracker : forall regs ops,
+  fold_left (cwstep (reg_all regs)) ops (reg_all regs) = fold_left wstep (strip_w ops) (reg_all regs)).
+Check (C19_watermark_restore_exact : forall regs ops,
+  let t0 := reg_all regs in
+  let t := fold_left wstep ops t0 in
+  tr_restore t0 (tr_ckpt t) = t).
+Check (C19_watermark_engine : forall streams ops,
+  cerun false streams (load_streams streams) ops = erun2 (load_streams streams) (strip_e ops)).
+(* the definitions the statements rest on are what they say *)
+Check (eq_refl : tr_restore = fun t cp =>
+  mkTr (fold_left (fun m p => sset (fst p) (snd p) m) (cp_src cp) (tr_src t)) (cp_eff cp)).
+Check (eq_refl : cwstep = fun t0 t o => match o with CW o => wstep t o | CWCkr => tr_restore t0 (tr_ckpt t) end).
+Check (eq_refl : strip_e = fun ops => flat_map (fun o => match o with CE o => [o] | CECkr => [] end) ops).
+Print Assumptions C19_watermark_tracker.
+Print Assumptions C19_watermark_restore_exact.
+Print Assumptions C19_watermark_engine.
